@@ -36,6 +36,26 @@ pub fn convert_node(ast: &ASTTy, imp: &mut Imports, state: &State, ctx: &Context
     let old_state = state.clone();
     let state = &state.must_assign_to(None, None).is_last_must_be_ret(false);
 
+    // Children of statements are statements, a control flow is what its parent says it is, and
+    // children of anything else are operands, which must be expressions in the output.
+    let state = &state.is_operand(match &ast.node {
+        NodeTy::Block { .. }
+        | NodeTy::VariableDef { .. }
+        | NodeTy::FunDef { .. }
+        | NodeTy::Class { .. }
+        | NodeTy::TypeDef { .. }
+        | NodeTy::TypeAlias { .. }
+        | NodeTy::While { .. }
+        | NodeTy::For { .. }
+        | NodeTy::With { .. }
+        | NodeTy::Handle { .. }
+        | NodeTy::Case { .. } => false,
+        NodeTy::IfElse { .. } | NodeTy::Match { .. } | NodeTy::ExpressionType { .. } => {
+            state.is_operand
+        }
+        _ => true,
+    });
+
     let core = match &ast.node {
         NodeTy::Import {
             from,
